@@ -478,6 +478,26 @@ class NpProxy:
             return self._minmax_kw(a, b, "max", **kw)
         return self._minmax(a, b, "max")
 
+    # -- tolerant comparison (decided per element by the engine: each element forks where the path leaves it open) ----
+    def isclose(self, a, b, rtol=1e-05, atol=1e-08, equal_nan=False):
+        if not (has_sym(a) or has_sym(b) or is_sym(a) or is_sym(b)):
+            return _np.isclose(_np.asarray(a, dtype=float) if _is_obj(_np.asarray(a)) else a,
+                               _np.asarray(b, dtype=float) if _is_obj(_np.asarray(b)) else b, rtol=rtol, atol=atol, equal_nan=equal_nan)
+        A, B = _np.broadcast_arrays(_np.asarray(a, dtype=object), _np.asarray(b, dtype=object))
+        out = _np.empty(A.shape, dtype=bool)
+        fa, fb, fo = A.ravel(), B.ravel(), out.ravel()
+        for i in range(fa.size):
+            x, y = fa[i], fb[i]
+            d = x - y
+            ay = y if not is_sym(y) else None
+            lim = atol + rtol * (abs(y))
+            fo[i] = bool(abs(d) <= lim)
+        res = fo.reshape(A.shape)
+        return res if res.shape else bool(res)
+
+    def allclose(self, a, b, rtol=1e-05, atol=1e-08, equal_nan=False):
+        return bool(_np.all(self.isclose(a, b, rtol=rtol, atol=atol, equal_nan=equal_nan)))
+
     # -- reductions with data-dependent control ----------------------------------------
     def argmin(self, a, *args, **kw):
         if _is_obj(_np.asarray(a)):
